@@ -6,7 +6,9 @@
 (*                                                                         *)
 (*   cycle t          a cycle of the graph that owns the switch node       *)
 (*   key t v          the key source's user code emitted v in this cycle   *)
-(*   held t           the first held input ticked (it is valid from now)   *)
+(*   held t v         a held input ticked (v = 1: the first one, which is  *)
+(*                    valid from now on)                                   *)
+(*   req g t          a node of branch instance g asked for a wake-up at t *)
 (*   sw t / swd       the switch node's turn begins / ends                 *)
 (*   gstart g / gstarted g / gstop g / gstopped g                          *)
 (*                    lifecycle of the graph instances whose parent is the *)
@@ -50,7 +52,8 @@ Matched(k) == Prog.dflt = 1 \/ \E j \in DOMAIN Prog.keys : Prog.keys[j] = k
 
 InitS == [ now |-> 0, ktick |-> 0, turned |-> FALSE, inturn |-> FALSE,
            sel |-> 0,              \* the key value of the current selection (0 = none yet)
-           heldok |-> FALSE,
+           heldok |-> FALSE, itick |-> FALSE,
+           want |-> {},            \* <<g, t>>: wake-ups the nodes of instance g asked for
            seen |-> {}, starting |-> {}, live |-> {}, stopping |-> {}, dead |-> {},
            created |-> {}, gevald |-> {}, nevald |-> {},
            expectfail |-> FALSE, drift |-> "", ended |-> FALSE ]
@@ -65,11 +68,16 @@ CycleEnd(s) == FirstFail(<<
 OnCycle(e) ==
     LET why == CycleEnd(S)
     IN IF why # "" THEN Fail(why)
-       ELSE Ok([S EXCEPT !.now = e.t, !.ktick = 0, !.turned = FALSE, !.inturn = FALSE])
+       ELSE Ok([S EXCEPT !.now = e.t, !.ktick = 0, !.itick = FALSE, !.turned = FALSE, !.inturn = FALSE])
 
 OnKey(e)  == Ok([S EXCEPT !.ktick = e.v])
-OnHeld(e) == Ok([S EXCEPT !.heldok = TRUE])
-OnSw(e)   == Ok([S EXCEPT !.inturn = TRUE, !.turned = TRUE, !.created = {}, !.gevald = {}, !.nevald = {}])
+OnHeld(e) == Ok([S EXCEPT !.heldok = @ \/ e.v = 1, !.itick = TRUE])
+OnReq(e)  == Ok([S EXCEPT !.want = @ \cup {<<e.g, e.t>>}])
+\* level B (SwitchNode.tla): the node has a turn because the key ticked, because a held input ticked, or because the
+\* LIVE branch asked for this time; a wake-up the retired branch had pending does not come back
+OnSw(e)   == LET reason == S.ktick # 0 \/ S.itick \/ \E g \in S.live : <<g, S.now>> \in S.want
+             IN Ok([S EXCEPT !.inturn = TRUE, !.turned = TRUE, !.created = {}, !.gevald = {}, !.nevald = {},
+                             !.drift = IF @ = "" /\ ~reason THEN "DRIFT.turn_of_the_switch_node_that_the_model_does_not_explain" ELSE @])
 
 OnGstart(e) ==
     LET why == FirstFail(<<
@@ -133,6 +141,7 @@ OnRet(e) ==
 Step(e) == CASE e.e = "cycle"    -> OnCycle(e)
              [] e.e = "key"      -> OnKey(e)
              [] e.e = "held"     -> OnHeld(e)
+             [] e.e = "req"      -> OnReq(e)
              [] e.e = "sw"       -> OnSw(e)
              [] e.e = "swd"      -> OnSwd(e)
              [] e.e = "gstart"   -> OnGstart(e)
